@@ -9,6 +9,7 @@
    Proofs: Proofs/SimpleExecChk.v, SimpleExecTop.v. *)
 From EoNV Require Import Prelude Samp Graph ListDict ListDictP Gillespie KldP GillespieInv SampP Simple SimpleP
   SimpleExecS SimpleExec SimpleExecLog SimpleExecTop SimpleExecChk.
+From EoNV Require Complex ComplexP ComplexExec ComplexExecChk.
 
 (* every run, every draw script, both return modes: the checker accepts the returned rows.
    [cov] = "every status a node can take is a return status" may be claimed only when it holds
@@ -81,6 +82,34 @@ Theorem C04gen_never_crashes :
   e = OutOfDraws \/ e = OutOfFuel.
 Proof. exact simple_exec_never_crashes. Qed.
 
+(* ---- Gillespie_complex_contagion: the same checker accepts the rows of every run, every draw
+   script, with "any status of the model's status universe [sts] to any other" as the moves (the
+   user's transition_choice decides); hypotheses = the domain of C15 plus: the chooser and the
+   initial statuses stay inside [sts]; [cov] may be claimed when return_statuses contains [sts] ---- *)
+Theorem C04gen_complex_rows_well_formed :
+  forall g rate choice infl rstats tmin tmax full,
+  NoDup (gnodes g) -> (forall st u, 0 <= rate st u) ->
+  (forall st u v, In u (gnodes g) -> In v (infl st u) -> In v (gnodes g)) ->
+  ComplexP.influence_covers g rate infl ->
+  forall sts, (forall st u, In (choice st u) sts) ->
+  forall (ic : node -> option N) fuel ds out tr cov,
+  (forall u, In u (gnodes g) -> ic u <> None) ->
+  (forall u s, In u (gnodes g) -> ic u = Some s -> In s sts) ->
+  (cov = true -> forall s, In s sts -> In s rstats) ->
+  exec (Complex.complex g rate choice infl rstats tmin tmax full ic fuel) ds [] = (Ok out, tr) ->
+  wf_gtrajb (order g) (ComplexExecChk.all_moves sts) rstats cov tmin tmax (so_rows (fst out)) = true.
+Proof. exact ComplexExecChk.complex_wf_gtrajb_accepts. Qed.
+
+(* non-vacuity for the complex simulator: the threshold contagion of Props/C15.v (statuses 0,1,2;
+   return_statuses all three) -- its scripted run is accepted with cov = true *)
+Example C04gen_complex_example :
+  match fst ComplexP.ex_run with
+  | Ok out => wf_gtrajb 3 (ComplexExecChk.all_moves [0; 1; 2]%N) [0; 1; 2]%N true 0 (Some 1) (so_rows (fst out)) = true /\
+              length (so_rows (fst out)) = 3%nat
+  | Err _ => False
+  end.
+Proof. vm_compute. split; reflexivity. Qed.
+
 (* non-vacuity: the scripted run of Props/C03.v's example (SIS-like, weighted, path 0-1-2) is
    accepted with cov = true; the same rows with one count off, or with a move that is not a
    spec edge, are rejected *)
@@ -102,4 +131,6 @@ Print Assumptions C04gen_moves_are_spec_edges.
 Print Assumptions C04gen_rows_are_running_census_of_one_log.
 Print Assumptions C04gen_census.
 Print Assumptions C04gen_never_crashes.
+Print Assumptions C04gen_complex_rows_well_formed.
+Print Assumptions C04gen_complex_example.
 Print Assumptions C04gen_example.
